@@ -417,6 +417,11 @@ class PhaseField(_Simu):
             oldAndNewDamage[:, 0] = old_damage
             oldAndNewDamage[:, 1] = d_np1
             d_np1 = np.max(oldAndNewDamage, 1)
+            # store the irreversible damage (it is the field saved by Save_Iter
+            # and the old_damage of the next load step)
+            self._Set_solutions(self.ProblemTypes.damage, d_np1)
+            # new damage -> new displacement matrices
+            self.__updatedDisplacement = False
 
         else:
             raise Exception("Unknown phase field solver.")
